@@ -404,6 +404,11 @@ static void lg_range(struct lg * e, char ** lo, char ** hi) {
   *hi = (char *)e->p + 2 * sizeof(void *);
   *lo = *hi - sz;
 }
+/* the allocator block behind a custom-size stack: power-of-two size classes (myth_flmalloc), the stack sits at its start */
+static void lg_block(struct lg * e, char ** lo, char ** hi) {
+  lg_range(e, lo, hi);
+  if (e->sz) { size_t cap = 8; while (cap < e->sz) cap <<= 1; *hi = *lo + cap; }
+}
 
 void mythv_alloc(int kind, void * p, size_t sz, int rank) {
   if (!mv_sh || mv_sh == &mv_dummy_shared) return;
@@ -422,6 +427,19 @@ void mythv_alloc(int kind, void * p, size_t sz, int rank) {
     if (kind == mythv_k_desc) mv_sh->reuse_desc++; else mv_sh->reuse_stack++;
   }
   e->state = LG_OWNED; e->sz = sz; e->rank = rank; lg_out[kind]++;
+  {
+    /* a thread record and a stack never share memory, whatever their state */
+    char * lo, * hi; if (kind == mythv_k_stack) lg_block(e, &lo, &hi); else { lo = (char *)p; hi = lo + sz; }
+    for (int i = 0; i < lg_n; i++) {
+      struct lg * o = &LG[i]; if (o->kind == kind) continue;
+      char * lo2, * hi2; if (o->kind == mythv_k_stack) lg_block(o, &lo2, &hi2); else { lo2 = (char *)o->p; hi2 = lo2 + (o->sz ? o->sz : 64); }
+      if (lo < hi2 && lo2 < hi) {
+	char b[240]; snprintf(b, sizeof b, "%s [%p,%p) handed out overlaps %s [%p,%p) (%s): the allocator maps or files blocks with a wrong size",
+			      kind == mythv_k_stack ? "stack block" : "thread record", lo, hi, o->kind == mythv_k_stack ? "stack block" : "thread record", lo2, hi2, o->state == LG_OWNED ? "in use" : "released");
+	finish_verdict(MV_VIOLATION, b);
+      }
+    }
+  }
   if (kind == mythv_k_stack) {
     char * lo, * hi, * lo2, * hi2; lg_range(e, &lo, &hi);
     for (int i = 0; i < lg_n; i++) {
@@ -429,11 +447,12 @@ void mythv_alloc(int kind, void * p, size_t sz, int rank) {
       if (o == e || o->kind != mythv_k_stack) continue;
       lg_range(o, &lo2, &hi2);
       if (o->state != LG_OWNED) {
-	/* a block the allocator got back earlier: handing out memory that straddles it means it was
-	   released at a wrong address or with a wrong size class */
-	if (lo < hi2 && lo2 < hi && !(lo == lo2 && hi == hi2) && !(lo >= lo2 && hi <= hi2 && o->sz == 0 && e->sz == 0)) {
-	  char b[240]; snprintf(b, sizeof b, "stack [%p,%p) (size %zu) handed out partially overlaps a previously released stack block [%p,%p) (size %zu): released at a wrong address or into a wrong size class",
-				lo, hi, e->sz, lo2, hi2, o->sz);
+	/* a block the allocator got back earlier: a later hand-out must be that very block again (same start, same
+	   size class) or lie elsewhere; anything that straddles it was released at a wrong address or into a wrong class */
+	char * bl, * bh, * bl2, * bh2; lg_block(e, &bl, &bh); lg_block(o, &bl2, &bh2);
+	if (bl < bh2 && bl2 < bh && !(bl == bl2 && bh == bh2)) {
+	  char b[260]; snprintf(b, sizeof b, "stack block [%p,%p) (requested %zu) handed out partially overlaps a previously released stack block [%p,%p) (requested %zu): released at a wrong address or into a wrong size class",
+				bl, bh, e->sz, bl2, bh2, o->sz);
 	  finish_verdict(MV_VIOLATION, b);
 	}
 	continue;
@@ -450,6 +469,10 @@ void mythv_alloc(int kind, void * p, size_t sz, int rank) {
 void mythv_free(int kind, void * p, size_t sz, int rank) {
   if (!mv_sh || mv_sh == &mv_dummy_shared) return;
   if (tl_w < 0 || S.ended) return;
+  if (S.mode == MODE_CTL && rank != tl_w) {
+    char b[200]; snprintf(b, sizeof b, "%s %p released by worker %d into the unsynchronised free list of worker %d", kind == mythv_k_desc ? "thread record" : "stack", p, tl_w, rank);
+    finish_verdict(MV_VIOLATION, b);
+  }
   struct lg * e = lg_find(kind, p);
   if (!e) {
     if (S.ended || S.mode != MODE_CTL) return;   /* objects created before control began */
